@@ -215,6 +215,25 @@ func (st *stream) deliverable(d int) int {
 	return n
 }
 
+// insideRecord reports whether T is a truncation of the stream that ends
+// inside a record, i.e. not at the end of the handshake or of a payload chunk
+// (where an end of stream is indistinguishable from the peer closing).
+func (st *stream) insideRecord(T []byte) bool {
+	n := len(T)
+	if n >= len(st.B) || commonPrefix(T, st.B) != n {
+		return false
+	}
+	if n == 0 {
+		return false
+	}
+	for _, s := range st.Segs {
+		if s.End == n && (s.Kind == "pay" || s.Kind == "varhdr") {
+			return false
+		}
+	}
+	return true
+}
+
 func (st *stream) kindAt(off int) string {
 	for _, s := range st.Segs {
 		if off < s.End {
